@@ -3,10 +3,15 @@
    emitted phased by the tracked phases of their qubits, swap-like gates exchange the two tracked phases,
    measurements forget them, everything else (ignored tag, no gate, phase_by undefined) first dumps the
    tracked phases of its qubits as Z gates; at the end all tracked phases are dumped.
+   PhasedXZ gates (`phased_xz_replacements` / `last_phased_xz_op`): the gate is emitted phased with z exponent 0, its own z
+   exponent joins the tracked phase of its qubit, and the qubit remembers WHERE the gate was emitted (its position in the
+   output).  Every operation forgets the marks of the qubits it touches before anything else happens (the first statement of
+   map_func) - a Z gate, a swap-like gate, a measurement, an opaque operation alike.  At the end a qubit that still carries
+   a mark does not get a Z gate: its tracked phase is written into the z exponent of the remembered gate (whatever its
+   value); only the final dump can see a mark, because the dumps inside the loop come after the marks were forgotten.
    Phases are integers (multiples of a fixed fraction of a turn), gates are labels of an arbitrary type.
    Definitions only; the invariant is proved in EjectZProofs.v.
-   Not modelled: the absorption of the final phase into the last PhasedXZ gate (phased_xz_replacements),
-   the atol threshold (atol = 0: a phase is dropped iff it is a whole number of turns), parameterized gates. *)
+   Not modelled: the atol threshold (atol = 0: a phase is dropped iff it is a whole number of turns), parameterized gates. *)
 From Coq Require Import List Arith ZArith Bool.
 Import ListNotations.
 Local Open Scope Z_scope.
@@ -20,21 +25,38 @@ Section EjectZ.
   | IGate (g : G) (qs : list nat)              (* phase_by is defined for g *)
   | ISwap (g : G) (a b : nat)                  (* swap-like *)
   | IMeas (g : G) (qs : list nat)              (* measurement *)
-  | IOpaque (g : G) (qs : list nat).           (* ignored tag / no gate / phase_by undefined *)
+  | IOpaque (g : G) (qs : list nat)            (* ignored tag / no gate / phase_by undefined *)
+  | IPhXZ (g : G) (q : nat) (z : Z).           (* PhasedXZ: x part g (phase_by defined), then Z^(2z) *)
 
   Inductive oop :=
   | OZ (q : nat) (p : Z)
   | OGate (g : G) (qs : list nat) (ps : list Z)    (* g phased by -ps on its qubits *)
   | OSwap (g : G) (a b : nat)
   | OMeas (g : G) (qs : list nat)
-  | OOpaque (g : G) (qs : list nat).
+  | OOpaque (g : G) (qs : list nat)
+  | OPhXZ (g : G) (q : nat) (p : Z) (z : Z).       (* PhasedXZ: x part g phased by -p, z exponent z *)
 
   Definition phases := nat -> Z.
   Definition pset (ph : phases) (q : nat) (v : Z) : phases := fun x => if Nat.eqb x q then v else ph x.
   Definition preset (ph : phases) (qs : list nat) : phases := fold_left (fun ph q => pset ph q 0) qs ph.
   Definition pswap (ph : phases) (a b : nat) : phases := pset (pset ph a (ph b)) b (ph a).
 
-  (* dump_tracked_phase: one Z gate per qubit whose tracked phase is not zero; the phase is zeroed *)
+  (* last_phased_xz_op: per qubit, the position in the output of the PhasedXZ gate that is still the last thing on it *)
+  Definition marks := nat -> option nat.
+  Definition mset (mk : marks) (q : nat) (v : option nat) : marks := fun x => if Nat.eqb x q then v else mk x.
+  Definition mclear (mk : marks) (qs : list nat) : marks := fold_left (fun mk q => mset mk q None) qs mk.
+
+  (* phased_xz_replacements[key] = ....with_z_exponent(v): the z exponent of the output entry at position k *)
+  Fixpoint setz (k : nat) (v : Z) (out : list oop) {struct out} : list oop :=
+    match out with
+    | [] => []
+    | o :: r => match k with
+                | O => (match o with OPhXZ g q p _ => OPhXZ g q p v | _ => o end) :: r
+                | S k' => o :: setz k' v r
+                end
+    end.
+
+  (* dump_tracked_phase inside the loop (no mark can be set there): one Z gate per qubit whose tracked phase is not zero *)
   Fixpoint dump (ph : phases) (qs : list nat) : list oop * phases :=
     match qs with
     | [] => ([], ph)
@@ -42,25 +64,37 @@ Section EjectZ.
                 ((if Z.eqb (ph q mod period) 0 then zs else OZ q (ph q) :: zs), ph')
     end.
 
-  Definition step (ph : phases) (o : iop) : list oop * phases :=
+  Definition state := (phases * marks * list oop)%type.
+
+  Definition step (st : state) (o : iop) : state :=
+    let '(ph, mk, out) := st in
     match o with
-    | IZ q p => ([], pset ph q (ph q + p))
-    | IGate g qs => ([OGate g qs (map ph qs)], ph)
-    | ISwap g a b => ([OSwap g a b], pswap ph a b)
-    | IMeas g qs => ([OMeas g qs], preset ph qs)
-    | IOpaque g qs => let '(zs, ph') := dump ph qs in (zs ++ [OOpaque g qs], ph')
+    | IZ q p => (pset ph q (ph q + p), mset mk q None, out)
+    | IGate g qs => (ph, mclear mk qs, out ++ [OGate g qs (map ph qs)])
+    | ISwap g a b => (pswap ph a b, mclear mk [a; b], out ++ [OSwap g a b])
+    | IMeas g qs => (preset ph qs, mclear mk qs, out ++ [OMeas g qs])
+    | IOpaque g qs => let '(zs, ph') := dump ph qs in (ph', mclear mk qs, out ++ zs ++ [OOpaque g qs])
+    | IPhXZ g q z => (pset ph q (ph q + z), mset mk q (Some (length out)), out ++ [OPhXZ g q (ph q) 0])
     end.
 
-  Fixpoint loop (ph : phases) (l : list iop) : list oop * phases :=
-    match l with
-    | [] => ([], ph)
-    | o :: r => let '(out1, ph1) := step ph o in
-                let '(out2, ph2) := loop ph1 r in (out1 ++ out2, ph2)
+  Definition loop (st : state) (l : list iop) : state := fold_left step l st.
+
+  (* the final dump_tracked_phase: a marked qubit hands its phase to the remembered PhasedXZ gate, the others get a Z gate *)
+  Fixpoint finish (ph : phases) (mk : marks) (out : list oop) (qs : list nat) : list oop :=
+    match qs with
+    | [] => out
+    | q :: r => match mk q with
+                | Some k => finish ph mk (setz k (ph q) out) r
+                | None => finish ph mk (if Z.eqb (ph q mod period) 0 then out else out ++ [OZ q (ph q)]) r
+                end
     end.
+
+  Definition init : state := (fun _ => 0, fun _ => None, []).
 
   Definition eject_z (allq : list nat) (l : list iop) : list oop :=
-    let '(out, ph) := loop (fun _ => 0) l in out ++ fst (dump ph allq).
+    let '(ph, mk, out) := loop init l in finish ph mk out allq.
 End EjectZ.
-Arguments IZ {G} _ _. Arguments IGate {G} _ _. Arguments ISwap {G} _ _ _. Arguments IMeas {G} _ _. Arguments IOpaque {G} _ _.
-Arguments OZ {G} _ _. Arguments OGate {G} _ _ _. Arguments OSwap {G} _ _ _. Arguments OMeas {G} _ _. Arguments OOpaque {G} _ _.
+Arguments IZ {G} _ _. Arguments IGate {G} _ _. Arguments ISwap {G} _ _ _. Arguments IMeas {G} _ _. Arguments IOpaque {G} _ _. Arguments IPhXZ {G} _ _ _.
+Arguments OZ {G} _ _. Arguments OGate {G} _ _ _. Arguments OSwap {G} _ _ _. Arguments OMeas {G} _ _. Arguments OOpaque {G} _ _. Arguments OPhXZ {G} _ _ _ _.
 Arguments eject_z {G} _ _ _. Arguments loop {G} _ _ _. Arguments step {G} _ _ _. Arguments dump {G} _ _ _.
+Arguments finish {G} _ _ _ _ _. Arguments setz {G} _ _ _. Arguments init {G}.
